@@ -49,7 +49,7 @@ UNITS = [
         }),
 """,
          hints=[
-             ("before", "let (mut i, mut offset) =", "        let ghost off0 = offset as int;\n        let ghost len0 = length as int;\n        let ghost file = file_of(self.content@);\n        let ghost n = self.content@.len() as int;\n        proof { lemma_startpoints_sorted(self.startpoints, self.content@); if n > 0 { lemma_file_upto_mono(self.content@, 0, n); } }"),
+             ("before", "let (mut i,", "        let ghost off0 = offset as int;\n        let ghost len0 = length as int;\n        let ghost file = file_of(self.content@);\n        let ghost n = self.content@.len() as int;\n        proof { lemma_startpoints_sorted(self.startpoints, self.content@); if n > 0 { lemma_file_upto_mono(self.content@, 0, n); } }"),
              ("before", "let mut result = BytesMut::with_capacity(length);", "        proof { if n > 0 && (i as int) < n { lemma_file_upto_mono(self.content@, i as int, n); if i + 1 < n { lemma_file_upto_mono(self.content@, i + 1, n); } } }"),
              ("after", "let data = repo.vget_data_blob(", """            proof {
                 lemma_blob_slice(self.content@, i as int);
